@@ -2,6 +2,9 @@
 (* Bounded instances of SymRes for TLC and the REPLAY record printed once per configuration. *)
 EXTENDS SymRes, Json
 
+CONSTANT Family   \* which bounded family of configurations (TLC evaluates every zero-arity constant
+                  \* definition eagerly, so the big sets are selected through an operator with a parameter)
+
 NamesA == <<"a">>
 NamesAB == <<"a", "b">>
 NamesW == <<"__real_s", "__wrap_s", "s">>
@@ -24,31 +27,38 @@ RegKinds == {"obj", "member", "wmember"}
 ShKinds == {"shared", "asneeded"}
 
 File1(k, r) == [kind |-> k, syms |-> [n \in {"a"} |-> r]]
-FilesA(regrecs) == {File1(k, r) : k \in RegKinds, r \in regrecs} \cup {File1(k, r) : k \in ShKinds, r \in ShRecs}
+(* an as-needed library that is not linked contributes nothing, so its own references are left out *)
+FilesA(regrecs) == {File1(k, r) : k \in RegKinds, r \in regrecs} \cup {File1("shared", r) : r \in ShRecs}
+                   \cup {File1("asneeded", r) : r \in ShRecs \ {R("undef", "default")}}
 Seq2(S) == {<<x, y>> : x \in S, y \in S}
 Seq3(S) == {<<x, y, z>> : x \in S, y \in S, z \in S}
 Seq4(S) == {<<x, y, z, w>> : x \in S, y \in S, z \in S, w \in S}
 
 (* C02 *)
-PairFull == Seq2(FilesA(RegRecsFull))
-PairDefault == Seq2(FilesA(RegRecsDefaultVis))
-TripleRep == Seq3(FilesA(RegRecsRep))
-TripleDefault == Seq3(FilesA(RegRecsDefaultVis))
+PairFull(x) == Seq2(FilesA(RegRecsFull))
+PairDefault(x) == Seq2(FilesA(RegRecsDefaultVis))
+TripleRep(x) == Seq3(FilesA(RegRecsRep))
+TripleDefault(x) == Seq3(FilesA(RegRecsDefaultVis))
 (* a smaller triple family for the quick tier: no GNU_UNIQUE / second common size / wmember *)
 RegRecsSmall == {None} \cup {R(d, "default") : d \in {"undef", "weakundef", "weak", "strong", "common4"}}
                  \cup {R("undef", "hidden")}
 FilesSmall == {File1(k, r) : k \in {"obj", "member"}, r \in RegRecsSmall} \cup {File1("shared", r) : r \in ShRecs}
-TripleSmall == Seq3(FilesSmall)
+TripleSmall(x) == Seq3(FilesSmall)
+
+(* pairs in which duplicates can arise, for --allow-multiple-definition *)
+PairDup(x) == Seq2({File1(k, r) : k \in RegKinds, r \in {R(d, "default") : d \in {"strong", "unique", "weak", "common4", "undef"}}})
+(* a tiny family used with TLC's (slow) coverage statistics to show that every action is exercised *)
+Tiny(x) == Seq3({File1(k, r) : k \in {"obj", "member"}, r \in {None, R("undef", "default"), R("strong", "default")}})
 
 (* C03: two names, reference graphs over objects / members / whole-archive members *)
 ArchRecs == {None} \cup {R(d, "default") : d \in {"undef", "weakundef", "strong"}}
 ArchRecsW == ArchRecs \cup {R("weak", "default"), R("common4", "default")}
 File2(k, ra, rb) == [kind |-> k, syms |-> [n \in {"a", "b"} |-> IF n = "a" THEN ra ELSE rb]]
 FilesAB(kinds, recs) == {File2(k, ra, rb) : k \in kinds, ra \in recs, rb \in recs}
-Arch3 == Seq3(FilesAB(RegKinds, ArchRecs))
-Arch3W == Seq3(FilesAB({"obj", "member"}, ArchRecsW))
-Arch4 == Seq4(FilesAB({"obj", "member"}, ArchRecs))
-Arch2 == Seq2(FilesAB(RegKinds, ArchRecsW))
+Arch3(x) == Seq3(FilesAB(RegKinds, ArchRecs))
+Arch3W(x) == Seq3(FilesAB({"obj", "member"}, ArchRecsW))
+Arch4(x) == Seq4(FilesAB({"obj", "member"}, ArchRecs))
+Arch2(x) == Seq2(FilesAB(RegKinds, ArchRecsW))
 
 (* C33: S, __wrap_S, __real_S over three files *)
 FileW(k, rs, rw, rr) == [kind |-> k, syms |-> [n \in {"__real_s", "__wrap_s", "s"} |->
@@ -58,25 +68,42 @@ WRecs == {None} \cup {R(d, "default") : d \in {"undef", "strong"}}
 RRecs == {None, R("undef", "default")}
 FilesW == {FileW(k, rs, rw, rr) : k \in {"obj", "member"}, rs \in SRecs, rw \in WRecs, rr \in RRecs}
           \cup {FileW("shared", rs, None, None) : rs \in {None, R("strong", "default")}}
-Wrap3 == Seq3(FilesW)
-Wrap2 == Seq2(FilesW)
+Wrap3(x) == Seq3(FilesW)
+Wrap2(x) == Seq2(FilesW)
+
+SpaceOf(fam) ==
+    CASE fam = "PairFull" -> PairFull(0)
+      [] fam = "PairDefault" -> PairDefault(0)
+      [] fam = "TripleRep" -> TripleRep(0)
+      [] fam = "TripleDefault" -> TripleDefault(0)
+      [] fam = "TripleSmall" -> TripleSmall(0)
+      [] fam = "Arch3" -> Arch3(0)
+      [] fam = "Arch3W" -> Arch3W(0)
+      [] fam = "Arch4" -> Arch4(0)
+      [] fam = "Arch2" -> Arch2(0)
+      [] fam = "Wrap3" -> Wrap3(0)
+      [] fam = "Wrap2" -> Wrap2(0)
+      [] fam = "PairDup" -> PairDup(0)
+      [] fam = "Tiny" -> Tiny(0)
+MCSpace == SpaceOf(Family)
 
 Opt(am, us, ws) == [allowMultiple |-> am, undefs |-> us, wrap |-> ws]
 OptPlain == {Opt(FALSE, {}, {})}
 OptMulti == {Opt(FALSE, {}, {}), Opt(TRUE, {}, {})}
+OptAllow == {Opt(TRUE, {}, {})}
 OptUndef == {Opt(FALSE, {}, {}), Opt(FALSE, {"a"}, {})}
 OptWrap == {Opt(FALSE, {}, {"s"})}
 
 -----------------------------------------------------------------------------
-ReplayRec ==
-    [files |-> files,
-     opts |-> opts,
-     expect |-> RuleOutcome(files, opts),
-     model |-> WOutcome(files, opts, AllQuirks),
-     causes |-> QuirkCauses(files, opts),
-     loadDiv |-> {f \in WLoaded(files, opts, AllQuirks) : ~Shared(files, f)}
-                    # {f \in ScanLoaded(files, opts) : ~Shared(files, f)},
-     shadow |-> ShadowClass(files),
-     commonLazy |-> CommonLazyClass(files)]
-EmitReplay == Done => PrintT(<<"REPLAY", ToJson(ReplayRec)>>)
+(* Evaluated once per configuration (in the state right after Start): the theorems, then the
+   REPLAY record with the rule's prediction (expect) and the prediction of wild-as-coded (model). *)
+PerConfig ==
+    IsInitial =>
+        LET an == Analysis(files, opts, want)
+        IN /\ Theorems(an)
+           /\ PrintT(<<"REPLAY", ToJson([files |-> files, opts |-> opts, expect |-> an.rule, model |-> an.model,
+                                        causes |-> an.causes, loadDiv |-> an.loadDiv, shadow |-> an.shadow,
+                                        commonLazy |-> an.commonLazy])>>)
+(* the same without printing *)
+PerConfigQuiet == IsInitial => Theorems(Analysis(files, opts, want))
 =============================================================================
